@@ -138,6 +138,9 @@ func runC03(c *hc.Ctx) error {
 		}
 		ax := g.Ext[0] + c.Rng.Int63n(total-w-1)
 		ay := g.Ext[1] + c.Rng.Int63n(total-w-1)
+		if c.Rng.Intn(6) == 0 { // at the minimum corner of the extent: the same small pixel addresses occur on every level
+			ax, ay = g.Ext[0]+c.Rng.Int63n(span), g.Ext[1]+c.Rng.Int63n(span)
+		}
 		cx, cy := ax+w/2, ay+w/2
 		nv := 3 + c.Rng.Intn(7)
 		var ring []Pt
